@@ -1,4 +1,5 @@
 import RsModel.Lemmas.StrictIn
+import RsModel.Lemmas.DeclMap
 /-! # C10: a cache filled by `map()` replays the attribution of the wrapped source's stream -/
 namespace Rs
 
@@ -75,5 +76,59 @@ theorem replay_final_of_final (T : Text) (F : SResult) (hsorted : sortedFrom 1 0
   unfold lookupCols
   exact kept_lookupGo q.line q.col (chunkMs F.evs) {} none none hsorted
     ⟨rfl, fun _ => rfl, fun _ => rfl, fun _ => rfl, fun h => by simp at h⟩
+
+
+/-- **the map stored from a text-less stream is in the domain of the map-driven splitter**: sorted, every segment inside the
+text — mapped ones on a character — and indices inside the tables -/
+theorem stored_map_ok (T : Text) (F : SResult) (hf : FinOK T F) (hsorted : sortedFrom 1 0 (chunkMs F.evs)) (hst : StrictK T F.evs)
+    (hd : DeclOK 0 0 F.evs) (hsmall : ∀ m ∈ chunkMs F.evs, m.small) (sm : SMap) (hm : mapOfEvs true F.evs = some sm) :
+    sortedFrom 1 0 (decode sm.mappings)
+    ∧ (∀ m ∈ decode sm.mappings, SegOK (splitLines T) (adv startPos T).line (adv startPos T).col m)
+    ∧ MapIdxOK sm := by
+  have hmm := mapOfEvs_mappings _ sm hm
+  have hdec : decode sm.mappings = keptFrom {} (chunkMs F.evs) := by
+    rw [hmm]; exact decode_encode _ hsmall (linesOK_of_sorted _ 1 0 hsorted)
+  have hsub := keptFrom_sublist (chunkMs F.evs) {}
+  refine ⟨by rw [hdec]; exact sortedFrom_sublist _ _ 1 0 hsorted hsub, ?_,
+    mapOfEvs_idxOK _ hd hsmall (linesOK_of_sorted _ 1 0 hsorted) sm hm⟩
+  intro m hmem
+  rw [hdec] at hmem
+  have hmF := hsub.subset hmem
+  obtain ⟨k, hk, e⟩ := finOK_ms T F hf m hmF
+  have hpre : T.take k <+: (splitLines T).flatten := by rw [splitLines_join]; exact List.take_prefix _ _
+  obtain ⟨i1, i2⟩ := prefix_pos_inside (splitLines T) (lines_of_splitLines _) (T.take k) 1 hpre
+  have e' : adv ⟨1, 0⟩ (T.take k) = ⟨m.gl, m.gc⟩ := e
+  rw [e'] at i1 i2
+  simp only at i1 i2
+  have hend : adv startPos T = adv ⟨m.gl, m.gc⟩ (T.drop k) := by
+    rw [← e, ← adv_append, List.take_append_drop]
+  refine ⟨⟨i1, fun hle => ?_⟩, fun ho => ?_, ?_⟩
+  · have := i2 (by omega)
+    simpa [lineAt] using this
+  · obtain ⟨t, hmem'⟩ : ∃ t, Ev.chunk t m ∈ F.evs := by
+      have : ∀ (evs : List Ev), m ∈ chunkMs evs → ∃ t, Ev.chunk t m ∈ evs := by
+        intro evs
+        induction evs with
+        | nil => intro h; simp [chunkMs] at h
+        | cons e es ih =>
+          intro h
+          cases e with
+          | chunk t0 m0 =>
+            simp only [chunkMs, List.mem_cons] at h
+            rcases h with rfl | h
+            · exact ⟨t0, by simp⟩
+            · obtain ⟨t, ht⟩ := ih h; exact ⟨t, by simp [ht]⟩
+          | source i s c => obtain ⟨t, ht⟩ := ih (by simpa [chunkMs] using h); exact ⟨t, by simp [ht]⟩
+          | name i n => obtain ⟨t, ht⟩ := ih (by simpa [chunkMs] using h); exact ⟨t, by simp [ht]⟩
+      exact this F.evs hmF
+    obtain ⟨k2, hk2, e2⟩ := hst t m hmem' ho
+    have := charPos_lt_end' startPos T k2 hk2
+    rw [e2] at this
+    exact this
+  · rw [hend]
+    have := adv_ge (T.drop k) ⟨m.gl, m.gc⟩
+    rcases this with h | h
+    · exact Or.inl h
+    · exact Or.inr h
 
 end Rs
